@@ -36,6 +36,7 @@ def run_cases(chk, binp, cases, pf_ok, pf, with_cycle=True):
     dist = {"returned": 0, "documented-panic": 0, "panic": 0, "skipped": 0}
     distinct = set()
     bad, tie = [], []
+    proved = [0, 0]
     for j in J:
         g = j["go_raw"]
         one = j["oneshot"]
@@ -54,6 +55,14 @@ def run_cases(chk, binp, cases, pf_ok, pf, with_cycle=True):
         if case_bad:
             bad.append(j)
         m = j["model"]
+        if j.get("termination_proved"):
+            # inside the class of C06_decided_schemas_terminate with the fuel of the case: the model returns by the theorem,
+            # and Go must have returned as well
+            proved[0] += 1
+            if m is None or m["outcome"] != "ok":
+                chk.violation("the extracted model contradicts C06_decided_schemas_terminate", {"theorem_or_correspondence": "extraction of the termination class", "case": j["case"], "model": m}, no_input=True)
+            elif g["outcome"] != "ok" and not case_bad:
+                proved[1] += 1
         if m is not None and m["outcome"] != "decode-error" and not case_bad:
             mo = m["outcome"]
             go_oc = "panic" if g["outcome"] == "panic" else g["outcome"]
@@ -100,6 +109,7 @@ def run_cases(chk, binp, cases, pf_ok, pf, with_cycle=True):
                 "distinct by (schema, instance, carrier)",
         "samples": [J[i]["case"] for i in (0, len(J) // 2, len(J) - 1)],
         "outcome_split": dist, "tie_mismatches": len(tie), "cycle_witness_child": cyc,
+        "cases_inside_the_termination_theorem": proved[0], "of_which_go_did_not_return": proved[1],
         "keyword_histogram": R.keyword_histogram([j["case"] for j in J]),
     })
     chk.assumptions = ["a recovered panic is classified by its runtime error text", "fatal runtime errors are only looked for on the recorded cycle witness (child process under ulimit)"]
